@@ -559,6 +559,26 @@ def check_nan_policy(ctx: Ctx) -> None:
     pre = ctx.index.method(DOE, "BaseDOELibrary", "_pre_run")
     off = [s_ for s_ in stmts_of(pre) if isinstance(s_, ast.Assign) and (dotted(s_.targets[0]) or "").endswith(".stop_if_nan")]
     ctx.ob("3.8-nan-policy", cname(DOE, "BaseDOELibrary", "_pre_run"), len(off) == 1 and const_value(off[0].value, True) is False, "a DOE must switch the NaN policy of its problem off: every generated sample is evaluated and recorded", node=(off or [pre])[0], stmt="problem.stop_if_nan = False")
+    # ... and the switch reaches EVERY function of the problem: those held in the sequences (constraints, observables)
+    # and those held under a name (the objective); likewise every other method that goes through "all the functions"
+    ep = ctx.index.cls("algos/evaluation_problem.py", "EvaluationProblem")
+    holders = ("_sequence_of_functions", "_function_names")
+    n_h = 0
+    for mname, m in sorted({**ep.methods, **{f"{k}.setter": v for k, v in ep.setters.items()}}.items()):
+        used = {h_ for h_ in holders if any(isinstance(x, ast.Attribute) and x.attr == h_ and dotted(x.value) == "self" and isinstance(x.ctx, ast.Load) for lp in ast.walk(m) if isinstance(lp, (ast.For, ast.comprehension)) for x in ast.walk(lp.iter))}
+        if not used:
+            continue
+        n_h += 1
+        ctx.ob("3.8-nan-policy", cname("algos/evaluation_problem.py", "EvaluationProblem", mname), used == set(holders), f"{mname} goes through {sorted(used)} only: the functions of a problem are those of `_sequence_of_functions` AND those named in `_function_names` (the objective); the others keep their old setting", node=m, stmt="all the functions: sequences and named ones")
+    ctx.need(n_h >= 2, "EvaluationProblem: the methods that go through all the functions were not found")
+    st = ep.setters.get("stop_if_nan")
+    ctx.need(st is not None, "EvaluationProblem.stop_if_nan setter not found")
+    val = st.args.args[1].arg
+    pushes = [s_ for s_ in stmts_of(st) if isinstance(s_, ast.Assign) and (dotted(s_.targets[0]) or "").endswith(".stop_if_nan") and dotted(s_.targets[0]) != "self.stop_if_nan"]
+    loops_ = [lp for lp in stmts_of(st) if isinstance(lp, ast.For) and lp in [l2 for l2 in stmts_of(st) if isinstance(l2, ast.For)]]
+    covered = {h_ for h_ in holders for lp in loops_ if any(isinstance(x, ast.Attribute) and x.attr == h_ for x in ast.walk(lp.iter)) and any(p_ in list(ast.walk(lp)) for p_ in pushes)}
+    ok = covered == set(holders) and all(dotted(p_.value) == val for p_ in pushes)
+    ctx.ob("3.8-nan-policy", cname("algos/evaluation_problem.py", "EvaluationProblem", "stop_if_nan.setter"), ok, f"the new policy must be pushed into the functions of both holders (pushed for {sorted(covered)})", node=st, stmt="policy pushed into every function")
 
 
 def _assigns_attr(func: ast.AST, attr: str) -> bool:
@@ -683,7 +703,46 @@ def _reaches_reset(fn, table, may_zero, depth, seen, callee) -> bool:
     return False
 
 
+def check_early_result(ctx: Ctx) -> None:
+    """3.10: when a termination criterion stops a driver (in the pre-run, in the solver's callbacks, or in an evaluation
+    the library makes after the solver returned), ``execute`` builds the result with
+    ``_get_early_stopping_result -> self._get_result(problem, message, status)``: every override of ``_get_result`` of a
+    driver library must be callable that way (F45: the LP libraries required five more arguments: TypeError instead of
+    a result)."""
+    base = ctx.index.cls("algos/base_driver_library.py", "BaseDriverLibrary")
+    early = base.methods["_get_early_stopping_result"]
+    calls_ = [c for c in walk_body(early) if isinstance(c, ast.Call) and isinstance(c.func, ast.Attribute) and c.func.attr == "_get_result" and dotted(c.func.value) == "self"]
+    ctx.need(len(calls_) >= 1 and not any(isinstance(a, ast.Starred) for c in calls_ for a in c.args), "_get_early_stopping_result: the call of _get_result was not found")
+    n_given = min(len(c.args) for c in calls_)
+    kw_given = set.intersection(*[{k.arg for k in c.keywords if k.arg} for c in calls_]) if calls_ else set()
+    n = 0
+    for cls in [base, *ctx.index.subclasses(base)]:
+        m = cls.methods.get("_get_result")
+        if m is None:
+            continue
+        n += 1
+        pos = m.args.args[1:]
+        n_req = len(pos) - len(m.args.defaults)
+        missing = [a.arg for a in pos[n_given:n_req] if a.arg not in kw_given] + [a.arg for a, d in zip(m.args.kwonlyargs, m.args.kw_defaults) if d is None and a.arg not in kw_given]
+        ctx.ob("3.10-early-result", cname(cls.module.relpath, cls.qualname, "_get_result"), not missing, f"{cls.name}._get_result cannot be called as _get_early_stopping_result calls it: parameters {missing} have no default, so a driver stopped by a termination criterion raises a TypeError instead of returning a result", node=m, stmt="_get_result(problem, message, status) is a valid call")
+    ctx.floor("3.10-early-result", 3)
+    # an evaluation a library makes on its own at the point the solver returned (the LP libraries: the solver works on the
+    # coefficients, the functions are evaluated once at its optimum) is not an iteration of the driver: charged to the
+    # budget, it is refused when the budget is used up and the solver's optimum is lost
+    n2 = 0
+    for cls in ctx.index.subclasses(base):
+        run_ = cls.methods.get("_run")
+        if run_ is None or not cls.module.relpath.startswith("algos/opt/"):
+            continue
+        for c in [c for c in walk_body(run_) if isinstance(c, ast.Call) and isinstance(c.func, ast.Attribute) and c.func.attr == "get_functions"]:
+            n2 += 1
+            v = kwarg(c, "no_db_no_norm")
+            ctx.ob("3.10-own-evaluation", cname(cls.module.relpath, cls.qualname, "_run"), v is not None and const_value(v) is True, f"{cls.name}._run evaluates the functions on its own through the evaluation counter (get_functions without no_db_no_norm=True): with the budget used up the evaluation at the solver's optimum is refused and the optimum is not reported", node=c, stmt="own evaluation outside the budget")
+    ctx.floor("3.10-own-evaluation", 2)
+
+
 def run(ctx: Ctx) -> None:
+    check_early_result(ctx)
     check_budget_guard(ctx)
     check_counter_kept(ctx)
     check_nan_policy(ctx)
